@@ -41,6 +41,30 @@ func txInfo(c *sim.Chain, m *refmodel.Model, out sim.TxOutcome) *refmodel.TxInfo
 	if out.Rec.Panic != "" {
 		t.Code = 999999
 	}
+	t.TxIdx = out.Rec.Idx
+	t.ErrLog = out.Rec.Log
+	for _, ev := range out.Events {
+		if ev.Type != "evm" {
+			continue
+		}
+		cur := ""
+		for _, a := range ev.Attributes {
+			switch {
+			case string(a.Key) == "contract":
+				if cur != "" {
+					t.Logs = append(t.Logs, cur)
+				}
+				cur = "addr=" + strings.ToUpper(string(a.Value))
+			case strings.HasPrefix(string(a.Key), "topic."):
+				cur += " " + string(a.Key) + "=" + strings.ToUpper(string(a.Value))
+			case string(a.Key) == "data":
+				cur += " data=" + strings.ToUpper(string(a.Value))
+			}
+		}
+		if cur != "" {
+			t.Logs = append(t.Logs, cur)
+		}
+	}
 	switch p := tx.Payload.(type) {
 	case *ctrlertypes.TrxPayloadUnstaking:
 		t.UnstakeHash = hexU(p.TxHash)
@@ -55,6 +79,8 @@ func txInfo(c *sim.Chain, m *refmodel.Model, out sim.TxOutcome) *refmodel.TxInfo
 		t.VoteHash, t.Choice = hexU(p.TxHash), p.Choice
 	case *ctrlertypes.TrxPayloadSetDoc:
 		t.Name, t.URL = p.Name, p.URL
+	case *ctrlertypes.TrxPayloadContract:
+		t.Data = p.Data
 	}
 	if a, ok := m.Acct[t.To]; ok && a.Code != "" {
 		t.ToIsContract = true
@@ -68,6 +94,8 @@ func txInfo(c *sim.Chain, m *refmodel.Model, out sim.TxOutcome) *refmodel.TxInfo
 type modelOpts struct {
 	RestartAfter map[int64]bool
 	Gap          func(c *sim.Chain, h int64, kind string, idx int)
+	EVM          refmodel.EVMHook
+	OnStart      func(c *sim.Chain, m *refmodel.Model)
 }
 
 func runWithModel(h sim.History, mo *modelOpts) *modelRun {
@@ -156,6 +184,12 @@ func runWithModel(h sim.History, mo *modelOpts) *modelRun {
 	}
 	res.Chain = c
 	c.Start()
+	if mo != nil {
+		m.EVM = mo.EVM
+		if mo.OnStart != nil {
+			mo.OnStart(c, m)
+		}
+	}
 	sim.RunBlocks(tmpRoot(), res, h.Blocks, hk)
 	mr.Res = res
 	mr.Findings = append(mr.Findings, m.TakeFindings()...)
